@@ -99,6 +99,39 @@ theorem inflightOf_write (L : Nat) (z : α) (sr w : List α) (rp wp level : Nat)
       rw [e, List.getD_eq_getElem?_getD, List.getElem?_eq_getElem (by omega)]
       simp
 
+/-! ### io_lcm -/
+
+def dbl (l w : Nat) : Nat := if l / w < 2 then l * 2 else l
+
+theorem ioLcm_eq (i o : Nat) : ioLcm i o = dbl (dbl (Nat.lcm i o) i) o := rfl
+
+theorem dvd_dbl (l w v : Nat) (h : v ∣ l) : v ∣ dbl l w := by
+  unfold dbl; split <;> [exact Dvd.dvd.mul_right h 2; exact h]
+
+theorem le_dbl (l w : Nat) : l ≤ dbl l w := by unfold dbl; split <;> omega
+
+theorem two_le_dbl (l w : Nat) (hw : 0 < w) (hl : 0 < l) (hd : w ∣ l) : 2 * w ≤ dbl l w := by
+  have hle : w ≤ l := Nat.le_of_dvd hl hd
+  unfold dbl
+  split
+  · omega
+  · next h =>
+    have h2 : 2 ≤ l / w := by omega
+    calc 2 * w ≤ l / w * w := Nat.mul_le_mul_right w h2
+      _ ≤ l := Nat.div_mul_le_self l w
+
+theorem ioLcm_facts (i o : Nat) (hi : 0 < i) (ho : 0 < o) :
+    i ∣ ioLcm i o ∧ o ∣ ioLcm i o ∧ 2 * i ≤ ioLcm i o ∧ 2 * o ≤ ioLcm i o := by
+  have hli : i ∣ Nat.lcm i o := Nat.dvd_lcm_left i o
+  have hlo : o ∣ Nat.lcm i o := Nat.dvd_lcm_right i o
+  have hlpos : 0 < Nat.lcm i o := Nat.lcm_pos hi ho
+  have h1 : 2 * i ≤ dbl (Nat.lcm i o) i := two_le_dbl _ _ hi hlpos hli
+  have h1pos : 0 < dbl (Nat.lcm i o) i := by omega
+  rw [ioLcm_eq]
+  refine ⟨dvd_dbl _ _ _ (dvd_dbl _ _ _ hli), dvd_dbl _ _ _ (dvd_dbl _ _ _ hlo), ?_,
+    two_le_dbl _ _ ho h1pos (dvd_dbl _ _ _ hlo)⟩
+  exact Nat.le_trans h1 (le_dbl _ _)
+
 /-! ### The step lemma -/
 
 theorem incMod_spec (w L c : Nat) (hw : 0 < w) (hd : w ∣ L) (hc : c < L / w) :
